@@ -62,7 +62,8 @@ CONSTANTS
 
 
 def tlc_mc(ck, label, timeout=600, workers=8, sched_sink=None, **kw):
-    cfg = os.path.join(vlib.SPEC, f"MC_SctpAssoc_{ck.pid}_{label}.gen.cfg")
+    # process id in the name: two runs of the same check (e.g. quick and thorough) must not share cfg files
+    cfg = os.path.join(vlib.SPEC, f"MC_SctpAssoc_{ck.pid}_{label}.{os.getpid()}.gen.cfg")
     write_mc_cfg(cfg, emit=sched_sink is not None, **kw)
     try:
         if sched_sink:
@@ -140,6 +141,7 @@ def basic_workload(rng, both=False):
 def run_scenarios(ck, scenarios, tag, nproc=8, timeout=1800):
     """run the scenarios in `nproc` worker processes; returns the raw events per scenario id"""
     d = ck.dir
+    tag = f"{tag}_{ck.tier}_{os.getpid()}"
     spath = os.path.join(d, f"scen_{tag}.ndjson")
     vlib.write_ndjson(spath, scenarios)
     nproc = max(1, min(nproc, len(scenarios)))
@@ -351,7 +353,19 @@ def validate(ck, pid, scenarios, by_id, tag, timeout=900):
     """normalise, concatenate, replay through Trace_SctpAssoc with Props = {pid}; returns (bad, ext, nevents)"""
     norm = []
     for k, sc in enumerate(scenarios):
-        norm += Norm(k + 1, sc, by_id[sc["id"]]).run()
+        part = Norm(k + 1, sc, by_id[sc["id"]]).run()
+        # positions (1-based, in the concatenated trace) of the submit events per side and channel, in
+        # submission order: the trace spec reads submitted messages in place instead of copying them
+        nch = len(sc["chans"])
+        idx = {"A": [[] for _ in range(nch)], "B": [[] for _ in range(nch)]}
+        for j, e in enumerate(part):
+            if e["e"] == "submit" and e["ch"] > 0:
+                idx[e["s"]][e["ch"] - 1].append(len(norm) + j + 1)
+        for e in part:
+            if e["e"] == "reset":
+                e["subidx"] = idx
+        norm += part
+    tag = f"{tag}_{ck.tier}_{os.getpid()}"
     path = os.path.join(ck.dir, f"trace_{tag}.ndjson")
     vlib.write_ndjson(path, norm)
     sinks = {t: os.path.join(ck.dir, f"trace_{tag}.{t.lower()}") for t in ("BAD", "EXT", "CURSOR")}
@@ -444,3 +458,16 @@ def sample(lst, n, seed):
     r = random.Random(seed)
     idx = sorted(r.sample(range(len(lst)), n))
     return [lst[i] for i in idx]
+
+
+def cleanup(ck):
+    """scratch files of this run (they carry the process id) are removed unless something was found"""
+    if ck.violations or ck.known_hits:
+        return
+    tag = f"_{os.getpid()}"
+    for name in os.listdir(ck.dir):
+        if tag in name and (name.startswith(("raw_", "scen_", "trace_", "sched_"))):
+            try:
+                os.remove(os.path.join(ck.dir, name))
+            except OSError:
+                pass
